@@ -30,6 +30,8 @@ def r12_1(ctx: Ctx):
     """R12.1 generations compound inside a metaepoch (C11 R11.1/R11.2/R11.4)."""
     out = []
     for o in c11.r11(ctx) + c11.r11_4(ctx):
+        if "CMADeme" in o.subject:
+            continue  # CMA-ES is not an elitist engine; its generation size is cma's constant lambda (assumption)
         o.rule = "R12.1"
         out.append(o)
     return out
@@ -38,7 +40,7 @@ def r12_1(ctx: Ctx):
 def r12_2(ctx: Ctx):
     """R12.2 size algebra of SEA selection, DE/SHADE replacement and deme constructors."""
     obs = []
-    for o in c04.r04_5(ctx):
+    for o in c04.r04_5(ctx, need="keep-parents"):
         if o.construct in ("sea-selection", "sea-run", "sea-pipeline-loop", "DE:greedy", "SHADE:greedy"):
             o.rule = "R12.2"
             obs.append(o)
@@ -62,12 +64,12 @@ def r12_2(ctx: Ctx):
 def r12_3(ctx: Ctx):
     """R12.3 elitism: elites from the parents, k_elites >= 1 by default, direction-aware selection; DE/SHADE slot-wise better."""
     obs = []
-    for o in c04.r04_5(ctx):
-        if o.construct in ("sea-selection",):
+    for o in c04.r04_5(ctx, need="keep-parents"):
+        if o.construct in ("sea-selection", "DE:greedy", "SHADE:greedy"):
             o.rule = "R12.3"
             obs.append(o)
     for o in c13.r13_2(ctx):
-        if any(s in o.subject for s in ("Population.topk", "DE.run", "SHADE.run")):
+        if any(s in o.subject for s in ("Population.topk",)):
             o.rule = "R12.3"
             obs.append(o)
     # default number of elites
@@ -189,7 +191,7 @@ def r12_5(ctx: Ctx):
 
 
 RULES = [
-    ("R12.1", r12_1, 12),
+    ("R12.1", r12_1, 10),
     ("R12.2", r12_2, 10),
     ("R12.3", r12_3, 8),
     ("R12.4", r12_4, 10),
